@@ -34,6 +34,8 @@ REWRITES = [
     ("R0-attr", re.compile(r"^[ \t]*#\[(?:default|inline|zeroize\(skip\)|allow\([^\]]*\)|cfg\(any\(test, feature = \"hbs_lms_verif\"\)\)|cfg\(test\))\][ \t]*\n(?:[ \t]*[^\n]*LmsH2[^\n]*\n)?", re.M), "",
      "inert attributes (#[default], #[inline], #[allow], #[zeroize(skip)] of the dropped derive) dropped; cfg(test)/hook-only LmsH2 lines dropped (default build)"),
     ("R7", re.compile(r"panic!\((?:[^()]|\([^()]*\))*\)"), "vpanic()", "panic!(..) -> vpanic() whose precondition is false: reaching it is a failed obligation"),
+    ("R7b", re.compile(r"assert_eq!\(\s*((?:[^(),]|\((?:[^()]|\([^()]*\))*\))+?),\s*((?:[^(),]|\((?:[^()]|\([^()]*\))*\))+?)\s*,?\s*\);", re.S),
+     r"if !(\1 == \2) { vpanic(); }", "assert_eq!(A, B); -> if !(A == B) { vpanic(); } : the panic of a failed assert_eq! is an obligation"),
     ("R13-param-ne", re.compile(r"([A-Za-z_][\w\.]*\.(lmots|lms)_parameter)\s*!=\s*([A-Za-z_][\w\.]*\.\2_parameter)"), r"!\2_parameter_eq(&\1, &\3)",
      "`a != b` on LmotsParameter/LmsParameter (derive(PartialEq)) -> !{lmots,lms}_parameter_eq(&a,&b): field-wise equality assumed"),
     ("R13-param-eq", re.compile(r"([A-Za-z_][\w\.]*\.(lmots|lms)_parameter)\s*==\s*([A-Za-z_][\w\.]*\.\2_parameter)"), r"\2_parameter_eq(&\1, &\3)",
@@ -102,6 +104,10 @@ def parse_vspec(path):
             cur["loops"].append((int(target), text))
         elif mode == "loopstart" and cur is not None:
             cur.setdefault("loopstarts", []).append((int(target), text))
+        elif mode == "loopend" and cur is not None:
+            cur.setdefault("loopends", []).append((int(target), text))
+        elif mode == "afterloop" and cur is not None:
+            cur.setdefault("afterloops", []).append((int(target), text))
         buf = []
         mode = None
         target = None
@@ -191,6 +197,12 @@ def parse_vspec(path):
                     target = arg.strip()
                 elif key == "@loopstart":
                     mode = "loopstart"
+                    target = arg.strip()
+                elif key == "@loopend":
+                    mode = "loopend"
+                    target = arg.strip()
+                elif key == "@afterloop":
+                    mode = "afterloop"
                     target = arg.strip()
                 elif key == "@end":
                     cur = None
@@ -499,6 +511,14 @@ def render_fn(item, cut, counts):
         if k >= len(heads):
             raise Undecided("lost anchor: loop %d of fn %s (body has %d loops)" % (k, item["name"], len(heads)))
         inserts.append((heads[k][1] + 1, "\n/*@hint-begin*/\n" + text + "\n/*@hint-end*/\n"))
+    for k, text in item.get("loopends", []):
+        if k >= len(heads):
+            raise Undecided("lost anchor: loop %d of fn %s (body has %d loops)" % (k, item["name"], len(heads)))
+        inserts.append((_match_brace(body_clean, heads[k][1]), "\n/*@hint-begin*/\n" + text + "\n/*@hint-end*/\n"))
+    for k, text in item.get("afterloops", []):
+        if k >= len(heads):
+            raise Undecided("lost anchor: loop %d of fn %s (body has %d loops)" % (k, item["name"], len(heads)))
+        inserts.append((_match_brace(body_clean, heads[k][1]) + 1, "\n/*@hint-begin*/\n" + text + "\n/*@hint-end*/\n"))
     for anchor, text in item["before"]:
         if anchor == "@@START":
             inserts.append((1, "\n/*@hint-begin*/\n" + text + "\n/*@hint-end*/\n"))
@@ -560,6 +580,15 @@ def generate(u, repo=None):
                 # R0-vis: all fields pub (visibility only; lets contracts of pub fns mention them)
                 text, n = re.subn(r"^(\s+)([a-z_][a-z0-9_]*\s*:)", r"\1pub \2", text, flags=re.M)
                 counts["R0-vis"] = counts.get("R0-vis", 0) + n
+            if it["opts"].get("execconst"):
+                # R14: `pub const X: T = E;` -> `pub exec const X: T ensures <clause> { E }` (Verus cannot call an exec fn in
+                # a spec-visible const initialiser; the value is the same expression, the ensures clause is proved from it)
+                text, n = re.subn(r"(?s)^(\s*(?:pub(?:\([a-z]+\))?\s+)?)const\s+(\w+)\s*:\s*([^=]+?)\s*=\s*(.*);\s*$",
+                                  lambda mm: "%sexec const %s: %s\n    ensures %s\n{ %s%s }" % (mm.group(1), mm.group(2), mm.group(3), it["opts"]["execconst"],
+                                                                              ("proof { %s } " % it["opts"]["execconst_proof"]) if it["opts"].get("execconst_proof") else "", mm.group(4)), text)
+                if n != 1:
+                    raise Undecided("lost anchor: const %s is not of the form `const X: T = E;`" % it["name"])
+                counts["R14-exec-const"] = counts.get("R14-exec-const", 0) + n
             if it["opts"].get("sub"):
                 _, rx, rep, _ = it["opts"]["sub"].split("/", 3)
                 text, n = re.subn(rx, rep, text)
